@@ -179,7 +179,23 @@ pub struct PanicInfo {
 impl PanicInfo {
     /// Stable identity of a panic site: file + message prefix (line numbers move when the tree is edited).
     pub fn site(&self) -> String {
-        let m: String = self.msg.chars().take(60).collect();
+        // numbers (lengths, indices, ids) vary between worlds hitting the same site
+        let mut m = String::new();
+        let mut last_digit = false;
+        for c in self.msg.chars().take(70) {
+            if c.is_ascii_digit() {
+                if !last_digit {
+                    m.push('#');
+                }
+                last_digit = true;
+            } else if c == '\n' {
+                m.push(' ');
+                last_digit = false;
+            } else {
+                m.push(c);
+                last_digit = false;
+            }
+        }
         format!("{}|{}", self.file, m)
     }
 }
